@@ -54,6 +54,14 @@ FIXTURES = {
          (0, "A", "RB", 2, "SEGA", [("N1", "N", 13)]),
          (1, "A", "RC", 1, "SEGB", [("O1", "O", 21), ("O2", "O", 22)])],
         [(0, 1, None, None), (1, 2, None, None), (2, 3, None, None), (3, 4, "Single", 1)]),
+    # three neighbouring residues that agree in name AND number (like waters after the residue counter wraps):
+    # only carriers with explicit residue boundaries can hold them; a data frame or a PDB file cannot, so those
+    # two events are not issued from states that still contain such neighbours (counted, not judged)
+    "sameres": _mk(
+        [(0, "S", "WWW", 7, "W", [("O", "O", 1)]),
+         (0, "S", "WWW", 7, "W", [("O", "O", 2)]),
+         (0, "S", "WWW", 7, "W", [("O", "O", 3)])],
+        [(0, 1, None, None)]),
 }
 
 # the fixed partner of join(): default serials, a residue numbered 0, a virtual site, a Triple bond
@@ -61,9 +69,9 @@ PARTNER = _mk([(0, "Z", "JJJ", 0, "SJ", [("X1", "C", None), ("X2", "VS", None)])
 
 # residue names for which a PDB file is a faithful carrier (no renaming, no template bonds on reading)
 PLAIN_RESNAMES = frozenset(["LIG", "MOL", "XXX", "AAA", "BBB", "CCC", "DDD", "RNG", "TAI", "VSR", "AMD", "RA", "RB", "RC",
-                            "JJJ"])
+                            "JJJ", "WWW"])
 
-ORDER = ["chains", "resseq", "serials", "virtual", "segments"]
+ORDER = ["chains", "resseq", "serials", "virtual", "segments", "sameres"]
 
 
 def subset_menu(n):
